@@ -2992,6 +2992,22 @@ func (c S3ApiController) DeleteObjects(ctx *fiber.Ctx) error {
 			})
 	}
 
+	for _, obj := range dObj.Objects {
+		if obj.Key == nil || !utils.IsObjectNameValid(*obj.Key) ||
+			(obj.VersionId != nil && !utils.IsPathComponentValid(*obj.VersionId)) {
+			if c.debug {
+				debuglogger.Logf("invalid object key or version id in delete objects")
+			}
+			return SendResponse(ctx, s3err.GetAPIError(s3err.ErrInvalidRequest),
+				&MetaOpts{
+					Logger:      c.logger,
+					MetricsMng:  c.mm,
+					Action:      metrics.ActionDeleteObjects,
+					BucketOwner: parsedAcl.Owner,
+				})
+		}
+	}
+
 	err = auth.VerifyAccess(ctx.Context(), c.be,
 		auth.AccessOptions{
 			Readonly:      c.readonly,
